@@ -361,6 +361,21 @@ func runC06Space(sh *core.Shard, a props.Args, n int, noTimeout bool, beliefs []
 				for _, route := range c06Routes {
 					c := c06case{N: n, Belief: b, Mask: mask, Entry: entry, Route: route, NoTimeo: noTimeout}
 					o, err := rg.request(c)
+					if err == nil && o.Status == 0 {
+						// the client got no response. If the counters already show a loop or a
+						// second hop that is the verdict; otherwise the client itself failed
+						// (timeout on a loaded machine): ask again
+						if sig, what := c06judge(rg, c, o); sig == "request-amplification" || sig == "second-hop" || sig == "forwarded-despite-local-upstream" {
+							sh.Eval()
+							sh.Violate(sig, what, c)
+							return false
+						}
+						sh.Count("requests_repeated_after_client_error", 1)
+						o, err = rg.request(c)
+						if err == nil && o.Status == 0 {
+							err = fmt.Errorf("the client got no response twice")
+						}
+					}
 					sh.Eval()
 					if err != nil {
 						sh.Inconcl("%s: %v", c06desc(c), err)
